@@ -94,7 +94,7 @@ func unaryArithmaticHelperf(op func(float64) float64) KeyBuilderFunction {
 }
 
 // Helper that takes in a float, operates on it, and spits out an int
-func unaryArithmaticHelperfi(op func(float64) int64) KeyBuilderFunction {
+func unaryArithmaticHelperfi(op func(float64) float64) KeyBuilderFunction {
 	return func(args []KeyBuilderStage) (KeyBuilderStage, error) {
 		if len(args) != 1 {
 			return stageErrArgCount(args, 1)
@@ -106,7 +106,12 @@ func unaryArithmaticHelperfi(op func(float64) int64) KeyBuilderFunction {
 				return ErrorNum
 			}
 
-			return strconv.FormatInt(op(val), 10)
+			ret := op(val)
+			if !(ret >= -(1<<63) && ret < 1<<63) { // outside int64, or NaN
+				return ErrorValue
+			}
+
+			return strconv.FormatInt(int64(ret), 10)
 		}, nil
 	}
 }
